@@ -157,6 +157,17 @@ func (ex *Exec) normEq(st *State, a, b Value, t types.Type) *Term {
 		el := t.Underlying().(*types.Pointer).Elem()
 		bothNil := And(Not(nonNilPtr(x)), Not(nonNilPtr(y)))
 		var cs []*Term
+		// unset and empty are identified: a nil pointer and a pointer to a value whose every field is unset
+		zero := ex.zeroValue(el)
+		for _, side := range [][2]*PtrVal{{x, y}, {y, x}} {
+			for _, p := range side[1].Alts {
+				if p.O == nil {
+					continue
+				}
+				pv := ex.navigate(st, ex.heapGet(st, p.O), p.Path, p.O)
+				cs = append(cs, And(Not(nonNilPtr(side[0])), p.C, ex.normEq(st, pv, zero, el)))
+			}
+		}
 		for _, p := range x.Alts {
 			for _, q := range y.Alts {
 				if p.O == nil || q.O == nil {
